@@ -5,7 +5,8 @@ import json
 import common as C
 import scen, oracle_tp
 
-FILES = ['theories/Base.v', 'theories/SkelDefs.v', 'theories/gen/SkelGen.v', 'proofs/SkelProofs.v']
+FILES = ['theories/Base.v', 'theories/SkelDefs.v', 'theories/gen/SkelGen.v', 'proofs/SkelProofs.v',
+         'theories/FlowDefs.v', 'proofs/FlowProofs.v', 'proofs/OrderProofs.v']
 
 
 def shape(dll, kind, win, size=None):
